@@ -19,7 +19,7 @@ impl<P: super::Runtime, O: ObjectView> StackFrame<P, O> {
         #[cfg(liquid_verif)]
         let vid = {
             let vid = super::verif_trace::next_id();
-            super::verif_trace::emit_new("plain", vid, parent.verif_id());
+            super::verif_trace::emit_new_keys("plain", vid, parent.verif_id(), data.keys());
             vid
         };
         Self {
@@ -370,7 +370,7 @@ impl<P: super::Runtime, O: ObjectView> SandboxedStackFrame<P, O> {
         #[cfg(liquid_verif)]
         let vid = {
             let vid = super::verif_trace::next_id();
-            super::verif_trace::emit_new("sandbox", vid, parent.verif_id());
+            super::verif_trace::emit_new_keys("sandbox", vid, parent.verif_id(), data.keys());
             vid
         };
         Self {
